@@ -119,6 +119,12 @@ def run(tier, seed):
                         body = le32(code) + le32(tr) + le16(btype) + le16(nb) + blob
                         pkt = le16(0x0080) + le16(0) + [0xff, 0x03] + le16(4 + len(body)) + body
                         plans.append({"id": "lic-%d-%d-%d-%d" % (code, tr, nb, btype), "stage": "licence", "layer": "user", "faults": [{"op": "trunc", "at": 0}, {"op": "append", "bytes": pkt}], "uid": 1004})
+        # a server that gives the user the id of the I/O channel (1003) - and answers the joins consistently: nothing a
+        # conforming server does (the conformance checks exclude it), something a hostile one may
+        for st in ("attach", "join", "licence", "licence_new"):
+            plans.append({"id": "uid1003-%s" % st, "stage": st, "layer": "frame", "faults": [], "uid": 1003})
+        for j, q in enumerate(rng.sample([x for x in plans if x["id"].startswith("f")], 300)):
+            plans.append(dict(q, id="uid1003-f%d" % j, uid=1003))
         plans.append({"id": "selftest", "stage": "attach", "layer": "mcs", "faults": [{"op": "set8", "off": 1, "v": 1}], "uid": 1004})
         pp = os.path.join(wd, "plans.ndjson")
         with open(pp, "w") as f:
